@@ -20,9 +20,9 @@ PKG = "funtracks"
 
 
 class _SplitConditionalEffects(ast.NodeTransformer):
-    """`stmt(A(..) if c else B(..))`  ->  `if c: stmt(A(..))  else: stmt(B(..))` for simple statements whose conditional
-    expression has a call in one of its arms.  The analyses are statement based: without the split both calls would
-    count as executed.  Only applied to the action packages; positions are kept."""
+    """`stmt(A(..) if c else B(..))`  ->  `if c: stmt(A(..))  else: stmt(B(..))` for simple statements.  The analyses are
+    statement based: without the split both arms' calls would count as executed, and a chosen value would be an
+    opaque term.  Only applied to the action packages; positions are kept."""
 
     SIMPLE = (ast.Expr, ast.Assign, ast.AnnAssign, ast.AugAssign, ast.Return)
 
@@ -30,7 +30,7 @@ class _SplitConditionalEffects(ast.NodeTransformer):
         for n in ast.walk(stmt):
             if isinstance(n, (ast.Lambda, ast.ListComp, ast.SetComp, ast.DictComp, ast.GeneratorExp)):
                 continue
-            if isinstance(n, ast.IfExp) and any(isinstance(x, ast.Call) for arm in (n.body, n.orelse) for x in ast.walk(arm)):
+            if isinstance(n, ast.IfExp):
                 # not inside a comprehension / lambda
                 return n
         return None
@@ -65,9 +65,29 @@ class _SplitConditionalEffects(ast.NodeTransformer):
         node = ast.If(test=ie.test, body=self._split(a, depth + 1), orelse=self._split(b, depth + 1))
         return [ast.copy_location(node, stmt)]
 
+    def _unroll_extend(self, s):
+        """`X.extend([E for v in IT if C])` with calls in E  ->  `for v in IT: if C: X.append(E)` (same order of effects)"""
+        if not (isinstance(s, ast.Expr) and isinstance(s.value, ast.Call) and isinstance(s.value.func, ast.Attribute) and s.value.func.attr == "extend"
+                and len(s.value.args) == 1 and isinstance(s.value.args[0], (ast.ListComp, ast.GeneratorExp)) and len(s.value.args[0].generators) == 1):
+            return s
+        comp = s.value.args[0]
+        if not any(isinstance(x, ast.Call) for x in ast.walk(comp.elt)):
+            return s
+        g = comp.generators[0]
+        app = ast.Expr(ast.Call(func=ast.Attribute(value=s.value.func.value, attr="append", ctx=ast.Load()), args=[comp.elt], keywords=[]))
+        body = [app]
+        for c in reversed(g.ifs):
+            body = [ast.If(test=c, body=body, orelse=[])]
+        loop = ast.For(target=g.target, iter=g.iter, body=body, orelse=[], type_comment=None)
+        for n in ast.walk(loop):
+            if not hasattr(n, "lineno"):
+                ast.copy_location(n, comp.elt if n is app or n is app.value else s)
+        return ast.copy_location(loop, s)
+
     def _block(self, body):
         out = []
         for s in body:
+            s = self._unroll_extend(s)
             s = self.generic_visit(s) if not isinstance(s, self.SIMPLE) else s
             out.extend(self._split(s))
         return out
